@@ -103,6 +103,9 @@ def _floats_close(a, b, exact=False):
         return math.isnan(a) and math.isnan(b)
     if math.isinf(a) or math.isinf(b):
         return a == b
+    if exact == 'bits':
+        # programs tagged `bit-exact`: every value is the result of single correctly rounded operations
+        return a == b
     if exact:
         # libm-free programs: bit-equal on the unchanged tree; a purely relative slack of ~2000 ulps (no absolute floor,
         # so tiny magnitudes are still resolved) keeps a harmless re-association of a sum from being reported
@@ -223,6 +226,8 @@ def run_batch(progs, race=False, env_extra=None, cmd_timeout_ms=None):
             r.diff = 0
             continue
         r.exact = not uses_libm(r.prog.lines)
+        if r.exact and 'bit-exact' in r.prog.tags:
+            r.exact = 'bits'
         r.diff = compare(r.h, r.d, r.exact)
         if r.diff is not None:
             bad.append((r, dtext[res.index(r)]))
